@@ -11,6 +11,41 @@ import traceback
 sys.dont_write_bytecode = True
 
 
+class StallDetected(BaseException):
+    pass
+
+
+def _install_stall_detector(ctx):
+    """periodic user-CPU-time timer (counts only while this process executes): if the evaluation counter has not moved for four
+    consecutive 60-second ticks, the code under test is looping"""
+    import signal
+
+    from .load import REPO
+
+    state = {"last": -1, "strikes": 0}
+
+    def on_tick(signum, frame):
+        n = ctx.counters_snapshot()
+        if n == state["last"]:
+            state["strikes"] += 1
+        else:
+            state["strikes"] = 0
+            state["last"] = n
+        if state["strikes"] >= 4:
+            where = "?"
+            f = frame
+            while f is not None:
+                if f.f_code.co_filename.startswith(REPO):
+                    where = "%s:%s" % (os.path.basename(f.f_code.co_filename), f.f_code.co_name)
+                    break
+                f = f.f_back
+            signal.setitimer(signal.ITIMER_VIRTUAL, 0)
+            raise StallDetected(where)
+
+    signal.signal(signal.SIGVTALRM, on_tick)
+    signal.setitimer(signal.ITIMER_VIRTUAL, 60, 60)
+
+
 def main():
     prop_id, spec_file, out_file = sys.argv[1:4]
     faulthandler.enable()
@@ -25,6 +60,8 @@ def main():
     status = "ok"
     err = None
     cov = None
+    if prop_id not in ("C14", "C20") and not job.get("replay"):  # C14 has per-call CPU bounds of its own; C20 judges blocking itself
+        _install_stall_detector(ctx)
     if os.environ.get("BVM_COVER"):
         # diagnostic only (tools/coverage_report.sh): which lines / branches of the repository the workload reaches
         import coverage
@@ -38,6 +75,10 @@ def main():
             mod.replay(job["replay"], ctx)
         else:
             mod.run_shard(job["spec"], ctx)
+    except StallDetected as e:
+        # a call into the code under test burned four minutes of CPU time without completing a single evaluation: it does not
+        # terminate (or is absurdly slow) - a verdict about the code, not a harness failure
+        ctx.violation("operation_makes_no_progress_for_240_cpu_seconds", {"innermost_repository_frame": e.args[0] if e.args else "?"}, {"kind": "stall", "shard": job["name"]})
     except BaseException as e:  # harness failure, not a verdict
         status = "error"
         err = "".join(traceback.format_exception(type(e), e, e.__traceback__))[-4000:]
